@@ -357,7 +357,7 @@ func scenarioC14(x *runner.X) {
 		}
 	}
 	// faults in the first frame itself (it lives inside the transaction node)
-	if n > 1 && len(a.frames[0].data) > 0 {
+	if len(a.frames[0].data) > 0 { // also when the payload is a single frame
 		alt := *a.frames[0]
 		alt.data = append([]byte(nil), alt.data...)
 		alt.data[0] ^= 0x80
@@ -365,6 +365,19 @@ func scenarioC14(x *runner.X) {
 		df, err := iplddecoders.DecodeDataFrame(alt.enc)
 		if err == nil {
 			if run("first-frame-bitflip", baseStore(), df, true) {
+				return
+			}
+		}
+	}
+	// the chain cut right behind the first frame: its link list is gone, hash and total still say
+	// what the whole payload is
+	if n > 1 {
+		alt := *a.frames[0]
+		alt.next = nil
+		c14encodeFrame(&alt, a, a.frames)
+		df, err := iplddecoders.DecodeDataFrame(alt.enc)
+		if err == nil {
+			if run("first-frame-links-dropped", baseStore(), df, true) {
 				return
 			}
 		}
